@@ -193,3 +193,5 @@
 (lemma strip-wf :induction x (forall ((x Node)) (! (=> (exprWF x) (and (exprWF (strip x)) (not ((_ is mk_ParenExpr) (strip x))) (<= (height (strip x)) (height x)))) :pattern ((strip x)))))
 (lemma W-strip :induction x (forall ((sd (Array Str Bool)) (sv (Array Str Str)) (m Int) (x Node) (o Out)) (! (= (W sd sv m (strip x) o) (W sd sv m x o)) :pattern ((W sd sv m (strip x) o)))))
 (lemma identsWFL-spanSafe :induction n (forall ((l Seq_Node) (n Int)) (! (=> (identsWFL l n) (spanSafeList l n)) :pattern ((identsWFL l n) (spanSafeList l n)))))
+(lemma identsWFL-snoc :induction n (forall ((l Seq_Node) (x Node) (n Int)) (! (=> (<= n (Seq_Node.len l)) (= (identsWFL (Seq_Node.snoc l x) n) (identsWFL l n))) :pattern ((identsWFL (Seq_Node.snoc l x) n)))))
+(lemma exprWFL-snoc :induction n (forall ((l Seq_Node) (x Node) (n Int)) (! (=> (<= n (Seq_Node.len l)) (= (exprWFL (Seq_Node.snoc l x) n) (exprWFL l n))) :pattern ((exprWFL (Seq_Node.snoc l x) n)))))
